@@ -13,6 +13,19 @@ parameters are all positional-or-keyword (the usual case: a family of
 dunders routed to one worker with a fixed mode argument).  The observable
 behaviour is the same (modulo introspection of the function object), and
 every rule then sees the method it looks for.
+
+  NAME = factory(<constants>)                                  (class body)
+
+where ``factory`` is a module-level function that defines one getter and
+returns ``property(getter)`` becomes the ``@property def NAME`` it stands
+for, with the factory's parameters replaced by the constants.
+
+  x = ... (n := f()) ...   /   if (n := f()): ...
+
+An assignment expression that is the first thing its statement evaluates
+(only names and constants before it, not inside a short-circuit operand, a
+branch of a conditional expression, a comprehension or a loop test) is
+hoisted into an assignment statement of its own.
 """
 import ast
 import copy
@@ -27,14 +40,225 @@ def _is_partialmethod(call):
     return name == "partialmethod" and isinstance(call.args[0], ast.Name)
 
 
+def _property_factories(tree):
+    """Module-level functions of the form
+
+        def factory(a, b):
+            def getter(obj): ...
+            return property(getter)
+
+    -> {name: (factory def, getter def)}"""
+    out = {}
+    for st in tree.body:
+        if not isinstance(st, ast.FunctionDef) or st.decorator_list:
+            continue
+        a = st.args
+        if a.vararg or a.kwarg or a.kwonlyargs or a.posonlyargs or \
+                a.defaults:
+            continue
+        body = [x for x in st.body if not (
+            isinstance(x, ast.Expr) and isinstance(x.value, ast.Constant))]
+        if len(body) == 2 and isinstance(body[0], ast.FunctionDef) and \
+                isinstance(body[1], ast.Return) and isinstance(
+                    body[1].value, ast.Call) and isinstance(
+                        body[1].value.func, ast.Name) and \
+                body[1].value.func.id == "property" and len(
+                    body[1].value.args) == 1 and not \
+                body[1].value.keywords and isinstance(
+                    body[1].value.args[0], ast.Name) and \
+                body[1].value.args[0].id == body[0].name and \
+                len(body[0].args.args) == 1 and not body[0].decorator_list:
+            out[st.name] = (st, body[0])
+    return out
+
+
+class _Subst(ast.NodeTransformer):
+    def __init__(self, mapping):
+        self.mapping = mapping
+
+    def visit_Name(self, node):
+        if isinstance(node.ctx, ast.Load) and node.id in self.mapping:
+            return ast.copy_location(copy.deepcopy(self.mapping[node.id]),
+                                     node)
+        return node
+
+
+def _expand_property(st, factory, getter):
+    call = st.value
+    params = [p.arg for p in factory.args.args]
+    if call.keywords or len(call.args) != len(params) or not all(
+            isinstance(x, ast.Constant) for x in call.args):
+        return None
+    # the getter must not re-bind the factory's parameters
+    for n in ast.walk(getter):
+        if isinstance(n, ast.Name) and isinstance(
+                n.ctx, (ast.Store, ast.Del)) and n.id in params:
+            return None
+    if getter.args.args[0].arg in params:
+        return None
+    g = copy.deepcopy(getter)
+    g.name = st.targets[0].id
+    g.decorator_list = [ast.Name(id="property", ctx=ast.Load())]
+    g.body = [_Subst(dict(zip(params, call.args))).visit(x) for x in g.body]
+    return ast.copy_location(g, st)
+
+
+def _pure(e):
+    if isinstance(e, (ast.Name, ast.Constant)):
+        return True
+    if isinstance(e, ast.Attribute):
+        return _pure(e.value)
+    return False
+
+
+def _replayable(e):
+    """f(<names, fields, constants and arithmetic on them>) with f a plain
+    name: an expression that can be evaluated a second time for the same
+    value."""
+    def simple(x):
+        if _pure(x):
+            return True
+        if isinstance(x, ast.BinOp):
+            return simple(x.left) and simple(x.right)
+        if isinstance(x, ast.UnaryOp):
+            return simple(x.operand)
+        return False
+    return isinstance(e, ast.Call) and isinstance(e.func, ast.Name) and \
+        not e.keywords and all(simple(a) for a in e.args)
+
+
+def _first_walrus(e):
+    """The assignment expression that is evaluated first, unconditionally,
+    when e is evaluated - with only names and constants evaluated before
+    it - or None."""
+    if isinstance(e, ast.NamedExpr):
+        inner = _first_walrus(e.value)
+        return inner if inner is not None else e
+    if isinstance(e, ast.UnaryOp):
+        return _first_walrus(e.operand)
+    if isinstance(e, ast.BoolOp):
+        return _first_walrus(e.values[0])
+    if isinstance(e, ast.IfExp):
+        return _first_walrus(e.test)
+    if isinstance(e, (ast.Attribute, ast.Subscript, ast.Starred)):
+        return _first_walrus(e.value)
+    seq = None
+    if isinstance(e, ast.Compare):
+        seq = [e.left] + list(e.comparators)
+    elif isinstance(e, ast.BinOp):
+        seq = [e.left, e.right]
+    elif isinstance(e, ast.Call):
+        seq = [e.func] + list(e.args) + [k.value for k in e.keywords]
+    elif isinstance(e, (ast.Tuple, ast.List, ast.Set)):
+        seq = list(e.elts)
+    if seq:
+        for x in seq:
+            w = _first_walrus(x)
+            if w is not None:
+                return w
+            if not _pure(x):
+                return None
+    return None
+
+
+class _ReplaceNode(ast.NodeTransformer):
+    def __init__(self, old, new):
+        self.old, self.new = old, new
+
+    def visit(self, node):
+        if node is self.old:
+            return self.new
+        return super().visit(node)
+
+
+def _hoist_walrus(stmts):
+    """x = (n := f()) ... / if (n := f()): ...  ->  n = f() first."""
+    n_done = 0
+    out = []
+    for st in stmts:
+        for field in ("body", "orelse", "finalbody"):
+            sub = getattr(st, field, None)
+            if isinstance(sub, list) and sub and isinstance(
+                    sub[0], ast.stmt):
+                k, new = _hoist_walrus(sub)
+                n_done += k
+                setattr(st, field, new)
+        for h in getattr(st, "handlers", []) or []:
+            k, new = _hoist_walrus(h.body)
+            n_done += k
+            h.body = new
+        if isinstance(st, (ast.FunctionDef, ast.ClassDef)):
+            out.append(st)
+            continue
+        if isinstance(st, ast.While):
+            # while a > (v := f(x)): body   ->   while a > f(x): v = f(x); body
+            # (f a plain function of names, fields and constants: evaluating
+            # it again at the top of the body gives the value the test saw)
+            for _ in range(4):
+                w = _first_walrus(st.test)
+                if w is None or not isinstance(w.target, ast.Name) or \
+                        not _replayable(w.value):
+                    break
+                later = [n for x in stmts[stmts.index(st) + 1:]
+                         for n in ast.walk(x) if isinstance(n, ast.Name)
+                         and n.id == w.target.id]
+                if later or st.orelse:
+                    break
+                _ReplaceNode(w, w.value).visit(st)
+                pre = ast.copy_location(ast.Assign(
+                    targets=[ast.Name(id=w.target.id, ctx=ast.Store())],
+                    value=copy.deepcopy(w.value)), st)
+                ast.fix_missing_locations(pre)
+                st.body.insert(0, pre)
+                n_done += 1
+            out.append(st)
+            continue
+        for _ in range(8):
+            e = None
+            if isinstance(st, ast.If):
+                e = st.test
+            elif isinstance(st, (ast.Assign, ast.AugAssign, ast.Return,
+                                 ast.Expr, ast.AnnAssign)):
+                e = st.value
+            w = _first_walrus(e) if e is not None else None
+            if w is None or not isinstance(w.target, ast.Name):
+                break
+            pre = ast.copy_location(ast.Assign(
+                targets=[ast.Name(id=w.target.id, ctx=ast.Store())],
+                value=w.value), st)
+            ast.fix_missing_locations(pre)
+            out.append(pre)
+            _ReplaceNode(w, ast.copy_location(ast.Name(
+                id=w.target.id, ctx=ast.Load()), w)).visit(st)
+            n_done += 1
+        out.append(st)
+    return n_done, out
+
+
 def desugar_tree(tree):
     n_done = 0
+    for fn in [n for n in ast.walk(tree)
+               if isinstance(n, (ast.FunctionDef, ast.AsyncFunctionDef))]:
+        k, fn.body = _hoist_walrus(fn.body)
+        n_done += k
+    factories = _property_factories(tree)
     for cls in [n for n in ast.walk(tree) if isinstance(n, ast.ClassDef)]:
         methods = {}
         new_body = []
         for st in cls.body:
             if isinstance(st, ast.FunctionDef):
                 methods[st.name] = st
+            if isinstance(st, ast.Assign) and len(st.targets) == 1 and \
+                    isinstance(st.targets[0], ast.Name) and isinstance(
+                        st.value, ast.Call) and isinstance(
+                            st.value.func, ast.Name) and \
+                    st.value.func.id in factories:
+                d = _expand_property(st, *factories[st.value.func.id])
+                if d is not None:
+                    methods[d.name] = d
+                    new_body.append(d)
+                    n_done += 1
+                    continue
             if isinstance(st, ast.Assign) and len(st.targets) == 1 and \
                     isinstance(st.targets[0], ast.Name) and \
                     _is_partialmethod(st.value):
